@@ -190,6 +190,10 @@ impl<M: Emu> RefMachine<M> {
     /// up once, then the interrupt check. EI at the end of a block takes effect
     /// at the block boundary.
     pub fn step_block(&mut self, max_instr: usize) -> StepInfo {
+        if self.run != Run::Run {
+            // a suspended CPU is advanced one machine cycle at a time in every mode
+            return self.step_instruction();
+        }
         let mut info = StepInfo {
             executed: false,
             opcode: 0,
@@ -197,18 +201,22 @@ impl<M: Emu> RefMachine<M> {
             instr_cycles: 0,
             clocks: 0,
             irq: IrqOutcome::Nothing,
-            was_suspended: self.run != Run::Run,
+            was_suspended: false,
             writes: vec![],
             out_of_domain: None,
         };
         let mut cycles = self.carried;
-        self.carried = 0;
+        let start = self.cpu.pc;
         let mut n = 0;
         loop {
             let op = self.t.read(self.cpu.pc);
             info.opcode = op;
             if sm83::is_undefined(op) {
                 info.out_of_domain = Some("undefined opcode");
+                return info;
+            }
+            if op == 0x76 && self.pending() != 0 {
+                info.out_of_domain = Some("HALT executed while an enabled interrupt is pending");
                 return info;
             }
             let mut bus = CpuBus { m: &mut self.t, writes: vec![] };
@@ -222,7 +230,12 @@ impl<M: Emu> RefMachine<M> {
             if out.terminator || n >= max_instr {
                 break;
             }
+            // a block started in ROM never extends past its 16 KiB region
+            if start < 0x8000 && (self.cpu.pc ^ start) & 0xc000 != 0 {
+                break;
+            }
         }
+        self.carried = 0;
         match info.ctl {
             Ctl::None => {}
             Ctl::Halt => self.run = Run::Halt,
